@@ -1,5 +1,6 @@
 """C14 — satisfied contracts are transparent."""
 import abc
+import builtins
 import inspect
 from typing import Any, Dict, List, Tuple
 
@@ -571,6 +572,17 @@ class K{base}:
         return self.amount * 2
 OPS = [("new", (3,), {{}}), ("call", "double"), ("getattr", "amount"), ("setattr", "amount", 5), ("call", "double")]
 ''',
+    "invariant-mixin-before-builtin-base": '''
+{deco}
+class Base{base}:
+    """A mix-in with invariants in front of a built-in base: the special methods of the built-in base stay in charge."""
+    def tag(self):
+        return "mixin"
+{deco2}
+class K(Base, int):
+    pass
+OPS = [("new", (5,), {{}}), ("call", "tag"), ("asbuiltin", "int"), ("call", "bit_length"), ("repr",)]
+''',
     "singleton-new": '''
 {deco}
 class K{base}:
@@ -583,7 +595,7 @@ class K{base}:
     def bump(self):
         self.n += 1
         return self.n
-OPS = [("new", (), {{}}), ("call", "bump"), ("new", (), {{}}), ("call", "bump"), ("getattr", "n")]
+OPS = [("new", (), {{}}), ("call", "bump"), ("new", (), {{}}), ("call", "bump"), ("getattr", "n"), ("inew",), ("call", "bump")]
 ''',
     "subclass-inherits-static-class-property-members": '''
 {deco}
@@ -736,6 +748,15 @@ def run_ops(mod, ops) -> List[Any]:
                 res = inst(op[1])
             elif op[0] == "bool":
                 res = bool(inst)
+            elif op[0] == "asbuiltin":
+                # the special methods which the built-in base defines (and which object defines as well)
+                plain = getattr(builtins, op[1])(inst)
+                res = (hash(inst) == hash(plain), inst == plain, plain == inst, inst != plain, str(inst), format(inst), {plain: "found"}.get(inst),
+                       inst < plain + 1, inst >= plain)
+            elif op[0] == "inew":
+                # __new__ reached through an instance (it is a static method: no argument is bound)
+                made = inst.__new__(type(inst), *op[1:])
+                res = ("instance", type(made).__name__, made is inst)
             else:
                 res = run_ops_extra(mod, op, inst)
             log.append(("ok", repr(res)))
